@@ -290,7 +290,8 @@ def replay(cases, *, deadline="10s", workers=None, name="replay", _retry=False):
             batch = late[i:i + 8]
             if confirmed:
                 for c in batch:
-                    results[c["id"]] = {"id": c["id"], "ok": True, "undecided": "deadline exceeded once; not retried because another case of this run hangs reproducibly"}
+                    results[c["id"]] = {"id": c["id"], "ok": False, "undecided": True,
+                                        "diff": "undecided: deadline exceeded once; not retried because another case of this run hangs reproducibly"}
                 continue
             again = replay(batch, deadline=longer, workers=4, name=name + "-retry", _retry=True)
             for c in batch:
@@ -368,6 +369,9 @@ class Check:
             self.extra.setdefault("coverage_zero_count_lines", []).extend(res.coverage_zero[:40])
 
     def mismatch(self, cls, diff, replaydata):
+        if str(diff).startswith("undecided:"):
+            self.extra["undecided_late_cases"] = self.extra.get("undecided_late_cases", 0) + 1
+            return
         k = match_known(self.known, cls, diff)
         if k is not None:
             self.known_hits.setdefault(k["id"], [k, 0, replaydata])
